@@ -257,7 +257,7 @@ class Case(object):
     """One directory tree: <WORK>/<n>/in/... (inputs), <WORK>/<n>/out (explicit output), <WORK>/<n>/cwd."""
     counter = itertools.count()
 
-    def __init__(self, layout, in_name='in'):
+    def __init__(self, layout, in_name='in', name_style='plain'):
         """layout: list of (relative sub directory ('' = top), kind) in creation order."""
         self.layout = layout
         self.root = os.path.join(WORK, 'case%05d' % next(Case.counter))
@@ -272,6 +272,11 @@ class Case(object):
         for i, (sub, kind) in enumerate(layout):
             ext, printer = KINDS[kind]
             base = 'n%02d%s' % (i, kind.replace('-', ''))
+            if name_style == 'dotted':
+                # distinct base names that share their first dot-separated segment (session.2020-06-24.xml ...)
+                base = 'rec.%02d.%s' % (i, kind.replace('-', ''))
+            elif name_style == 'spaced':
+                base = 'my file %02d %s' % (i, kind.replace('-', ''))
             cont = content(base, i % 3) if kind in GOOD else None
             d = os.path.join(self.indir, sub)
             os.makedirs(d, exist_ok=True)
@@ -594,6 +599,20 @@ def run_batch(tier, seed):
                         run_cli(ck, case, tool, recursive, explicit)
                     finally:
                         case.cleanup()
+        # ---- file names with inner dots / spaces (unique base names, shared first segment)
+        for style in ('dotted', 'spaced'):
+            for layout in ([('', 'v10-xml'), ('', 'v10-xml'), ('sub', 'v10-xml')],
+                           [('', 'v10-xml'), ('', 'v10-json'), ('', 'v11-xml')],
+                           [('', 'v11-xml'), ('sub', 'v11-xml'), ('', 'v10-yaml')]):
+                for tool in ('odmlconvert', 'odmltordf'):
+                    for recursive, explicit in ((True, True), (True, False)):
+                        case = Case(layout, name_style=style)
+                        col.case(cls_key=('names', style, tuple(layout), tool, recursive, explicit),
+                                 sample='%s %s names %r' % (tool, style, layout))
+                        try:
+                            run_cli(ck, case, tool, recursive, explicit)
+                        finally:
+                            case.cleanup()
         # ---- format converter
         targets = list(ODML_TARGETS) + list(RDF_TARGETS)
         for target in targets:
